@@ -7,6 +7,7 @@ import (
 	"fmt"
 	"os"
 	"sort"
+	"strings"
 	"testing"
 
 	"pgregory.net/rapid"
@@ -225,13 +226,24 @@ func k11GenSingle(t *rapid.T) *k11Case {
 			c.Ops = append(c.Ops, k11GenOps(t, g, nkeys, rapid.IntRange(3, 14).Draw(t, "nops"), false)...)
 		}
 	}
-	k11Exclusions(c, nil)
 	return c
 }
 
 // k11Exclusions removes by construction what a listed (known, unrepaired) finding would trip over.
 // Returns a note per exclusion made.
 func k11Exclusions(c *k11Case, st *vStat) {
+	if vIsKnown(k11KeyTwice) && c.AofBuf < 4096 {
+		// a write error that surfaces inside Aof.PushLock (buffer full => Flush inside WriteLock) fails the ack twice
+		for _, o := range c.Ops {
+			if o.K == "release" && o.Fault != "" {
+				c.AofBuf = 4096
+				if st != nil {
+					st.Exclude("append-file buffer of one or two records not combined with a write fault (known finding " + k11KeyTwice + ")")
+				}
+				break
+			}
+		}
+	}
 	if vIsKnown(k11KeyReentrant) {
 		// no ack-required request for a LockId that may already hold the key
 		seen := map[[2]int]bool{}
@@ -329,6 +341,7 @@ func TestC11_SingleNode(t *testing.T) {
 	st := vstat("TestC11_SingleNode")
 	rapid.Check(t, func(t *rapid.T) {
 		c := k11GenSingle(t)
+		k11Exclusions(c, st)
 		out := k11RunSingle(c)
 		if out.inconclusive != "" {
 			k11Inconclusive(out.inconclusive)
@@ -336,7 +349,24 @@ func TestC11_SingleNode(t *testing.T) {
 		for i := 0; i < out.info.knownLateReply; i++ {
 			st.KnownHit(k11KeyLateReply)
 		}
+		for i := 0; i < out.info.excludedRollback; i++ {
+			st.Exclude("value operation whose roll-back is inexact in the current state replaced by SET (known finding " + k11KeyRollback + ")")
+		}
+		for i := 0; i < out.info.skippedDupQueued; i++ {
+			st.Exclude("lock request for a LockId that is still queued skipped (duplicate LockId in the queue is not C11)")
+		}
 		st.Case(k11Nontrivial(out.info), c.fingerprint(), k11Classes(out.info), func() interface{} { return c })
+		if os.Getenv("VERIF_K11_SURVEY") != "" {
+			for _, v := range out.viols {
+				st.Class("SURVEY "+v.Key+" "+v.Sig, 1)
+				fn := os.Getenv("VERIF_K11_SURVEY") + "/" + strings.NewReplacer(":", "_", " ", "_", "=", "-").Replace(v.Key+"_"+v.Sig) + ".json"
+				if fi, err := os.Stat(fn); err != nil || fi.Size() > int64(len(out.history)+len(c.Ops)*80) {
+					b, _ := json.Marshal(map[string]interface{}{"key": v.Key, "message": v.Msg, "case": c})
+					_ = os.WriteFile(fn, append(b, []byte("\n"+v.Msg+"\n"+out.history+"\n")...), 0644)
+				}
+			}
+			return
+		}
 		if err := out.err(); err != nil {
 			vFail(t, "TestC11_SingleNode", k11FirstKey(&out), c, "%v", err)
 		}
